@@ -583,6 +583,18 @@ def run_C02(ctx):
                         return i + 1, 'a derivable text (5000 nested lists) is rejected: %s' % outs[i + 1]
         return None
     correspondence(ctx, [sess_known], proj_read, oracle_known, 'C02 grammar conformance', 'known-findings')
+    # last definition wins AND takes the place of its last definition: redefinitions that are not adjacent (other members
+    # in between), at top level and nested, changing type, several names at once - overrides off (rejected) and on
+    OV_TEXTS = [b'a = 1; b = 2; a = 3;', b'a = 1; b = 2; c = 3; a = 4; b = 5;', b'g = { a = 1; b = 2; a = 3; }; h = 1; g = 2;',
+                b'a = 1; b = 2; a = "s";', b'a = { x = 1; }; b = 2; a = ( 1, 2 );', b'a = 1; a = 2; b = 3; a = 4;',
+                b'l = ( { a = 1; b = 2; a = 3; c = 4; b = 5; } );', b'x = 1; y = 2; z = 3; y = 4; x = 5; z = 6; w = 7; x = 8;']
+    def sess_ov(impl, rng, stats):
+        for ov in (0, 1):
+            for t in OV_TEXTS:
+                impl.do('init'); impl.do('set_option 128 %d' % ov)
+                impl.do('read_string ' + hexs(t)); impl.do('err'); impl.do('dump'); impl.do('write')
+                stats['c02:override-order'] = stats.get('c02:override-order', 0) + 1
+    correspondence(ctx, [sess_ov], proj_read, None, 'C02 grammar conformance', 'override-order')
     # random long valid texts and their mutations
     rng = Rng(ctx['seed'] * 7919 + 2)
     n = 150 if ctx['tier'] == 'quick' else 20000
